@@ -224,9 +224,9 @@ def smooth_scipy_case(c):
     for key, path in outputs.items():
         got = np.asarray(df[key], dtype=float).reshape(len(df.index), -1)[:, 0]
         want = ref.y[svars.index(path)]
-        if got.shape != want.shape or not np.allclose(got, want, rtol=1e-8, atol=1e-10):
+        if got.shape != want.shape or not np.allclose(got, want, rtol=2e-10, atol=2e-12):
             bad = int(np.argmax(np.abs(got - want))) if got.shape == want.shape else -1
-            fails.append(dict(clause="scipy solution in float64 within 1e-8 of the reference on every backend (no single-precision round trip)", var=path,
+            fails.append(dict(clause="scipy solution in float64 within 2e-10 of the reference on every backend (no single-precision round trip)", var=path,
                               observed=float(got[bad]) if bad >= 0 else list(got.shape), expected=float(want[bad]) if bad >= 0 else list(want.shape)))
             break
     return dict(status="violated" if fails else "ok", fails=fails)
